@@ -12,8 +12,11 @@
     [concat].  An xarray Dataset is the ordered list of its coordinates
     (index coordinates are 1-D, the others carry their own pair of dimension
     names) and the ordered list of its data variables, each with its own
-    pair of dimension names - grid_to_table ravels every variable in the
-    variable's own layout, and the model does the same.
+    pair of dimension names - grid_to_table transposes every variable and
+    2-D non-index coordinate to the dimension order of the first variable
+    before raveling it (the repair of finding F6), and the model does the
+    same; [grid_to_table_pinned] is the code before the repair, which raveled
+    every variable in the variable's own layout.
 
     [None] is ValueError.  Not modelled (outside the property's quantifier,
     never generated): arrays with a zero-length axis passed as 2-D
@@ -51,6 +54,12 @@ Definition cell (a : arr2) (i j : nat) : option V :=
   match nth_error a i with Some r => nth_error r j | None => None end.
 
 Definition ravel (a : arr2) : list V := concat a.
+
+(** column j of an array, and the transposed array (.T / xarray transpose) *)
+Definition col (j : nat) (a : arr2) : list V :=
+  flat_map (fun r => match nth_error r j with Some x => [x] | None => [] end) a.
+Definition transpose (a : arr2) : arr2 :=
+  map (fun j => col j a) (seq 0 (length (hd [] a))).
 
 (** numpy.meshgrid(e, n) = (mesh_e e n, mesh_n e n) *)
 Definition mesh_e (e n : list V) : arr2 := map (fun _ => e) n.
@@ -165,7 +174,38 @@ Definition table := list (string * list V).
 Definition is_extra (d0 d1 : string) (p : string * coord) : bool :=
   negb (String.eqb (fst p) d0 || String.eqb (fst p) d1).
 
+Definition dims_eqb (a b : string * string) : bool :=
+  String.eqb (fst a) (fst b) && String.eqb (snd a) (snd b).
+
+(** [v.transpose(d0, d1).values]: unchanged when the variable is already laid
+    out as (d0, d1), transposed when it is laid out as (d1, d0) (other
+    dimension names are outside the model) *)
+Definition oriented (d0 d1 : string) (v : var2) : arr2 :=
+  if dims_eqb (v_dims v) (d0, d1) then v_rows v else transpose (v_rows v).
+
+Definition coord_oriented (d0 d1 : string) (c : coord) : list V :=
+  match c with Idx v => v | Aux v => ravel (oriented d0 d1 v) end.
+
 Definition grid_to_table (g : grid) : option table :=
+  match grid_vars g with
+  | [] => None
+  | (_, v0) :: _ =>
+    let d0 := fst (v_dims v0) in
+    let d1 := snd (v_dims v0) in
+    match assoc d0 (grid_coords g), assoc d1 (grid_coords g) with
+    | Some cn, Some ce =>
+      let north := coord_values cn in
+      let east := coord_values ce in
+      Some ((d0, ravel (mesh_n east north)) :: (d1, ravel (mesh_e east north))
+            :: map (fun p => (fst p, coord_oriented d0 d1 (snd p))) (filter (is_extra d0 d1) (grid_coords g))
+            ++ map (fun p => (fst p, ravel (oriented d0 d1 (snd p)))) (grid_vars g))
+    | _, _ => None
+    end
+  end.
+
+(** the code before the repair of F6: every variable and coordinate raveled
+    in its own layout (used only by the refutation Example in Props/C18.v) *)
+Definition grid_to_table_pinned (g : grid) : option table :=
   match grid_vars g with
   | [] => None
   | (_, v0) :: _ =>
@@ -238,21 +278,34 @@ Definition source_cell (ce cn : nd) (i j : nat) (y x : V) : Prop :=
   | _, _ => False
   end.
 
-(** a grid whose variables and non-index coordinates are all laid out along
-    the dimensions (d0, d1) of its first variable, with index coordinates
-    [north] for d0 and [east] for d1 *)
-Definition coord_cell (c : coord) (i j : nat) : option V :=
-  match c with Aux v => cell (v_rows v) i j | Idx _ => None end.
+(** the value of a variable at index i along d0 and j along d1, whichever
+    of the two layouts (d0, d1) / (d1, d0) it is stored in *)
+Definition value_at (d0 d1 : string) (v : var2) (i j : nat) : option V :=
+  if dims_eqb (v_dims v) (d0, d1) then cell (v_rows v) i j
+  else if dims_eqb (v_dims v) (d1, d0) then cell (v_rows v) j i
+  else None.
 
+Definition coord_at (d0 d1 : string) (c : coord) (i j : nat) : option V :=
+  match c with Aux v => value_at d0 d1 v i j | Idx _ => None end.
+
+(** a variable stored as (d0, d1) with shape nn x ne, or as (d1, d0) with
+    shape ne x nn *)
+Definition laid_out (d0 d1 : string) (nn ne : nat) (v : var2) : Prop :=
+  (v_dims v = (d0, d1) /\ rect nn ne (v_rows v) = true) \/
+  (v_dims v = (d1, d0) /\ rect ne nn (v_rows v) = true).
+
+(** a grid over the dimensions (d0, d1) of its first variable, with index
+    coordinates [north] for d0 and [east] for d1; every variable and every
+    non-index coordinate is stored along these two dimensions, in either
+    order *)
 Definition aligned_grid (g : grid) (d0 d1 : string) (north east : list V) : Prop :=
+  d0 <> d1 /\
   (exists nm v0 rest, grid_vars g = (nm, v0) :: rest /\ v_dims v0 = (d0, d1)) /\
   assoc d0 (grid_coords g) = Some (Idx north) /\
   assoc d1 (grid_coords g) = Some (Idx east) /\
-  Forall (fun p => v_dims (snd p) = (d0, d1) /\
-                   rect (length north) (length east) (v_rows (snd p)) = true) (grid_vars g) /\
+  Forall (fun p => laid_out d0 d1 (length north) (length east) (snd p)) (grid_vars g) /\
   Forall (fun p => is_extra d0 d1 p = true ->
-                   exists v, snd p = Aux v /\ v_dims v = (d0, d1) /\
-                             rect (length north) (length east) (v_rows v) = true) (grid_coords g).
+                   exists v, snd p = Aux v /\ laid_out d0 d1 (length north) (length east) v) (grid_coords g).
 
 (** the conditions under which make_xarray_grid accepts its input *)
 Definition names_valid (count : nat) (nm : names) : bool :=
@@ -293,8 +346,6 @@ Definition make_valid (ce cn : nd) (extras : list arr2) (data : dataarg)
 (** ** Decidable statements, evaluated on the implementation's output *)
 
 Definition arr_eqb (a b : arr2) : bool := list_eqb (list_eqb veqb) a b.
-Definition dims_eqb (a b : string * string) : bool :=
-  String.eqb (fst a) (fst b) && String.eqb (snd a) (snd b).
 Definition var_eqb (a b : var2) : bool :=
   dims_eqb (v_dims a) (v_dims b) && arr_eqb (v_rows a) (v_rows b).
 Definition coord_eqb (a b : coord) : bool :=
@@ -361,17 +412,9 @@ Definition make_holds (ce cn : nd) (extras : list arr2) (data : dataarg)
 (** grid_to_table on a grid whose variables and non-index coordinates are
     laid out along the same two dimensions (d0, d1) as the first variable:
     columns d0, d1, extra coordinates, variables; one row per cell, row-major;
-    row k holds the coordinates and every value of cell (k / ne, k mod ne).
-    Variables / coordinates laid out as (d1, d0) are compared at the same
-    cell, i.e. transposed. *)
-Definition value_at (d0 d1 : string) (v : var2) (i j : nat) : option V :=
-  if dims_eqb (v_dims v) (d0, d1) then cell (v_rows v) i j
-  else if dims_eqb (v_dims v) (d1, d0) then cell (v_rows v) j i
-  else None.
-
-Definition coord_at (d0 d1 : string) (c : coord) (i j : nat) : option V :=
-  match c with Aux v => value_at d0 d1 v i j | Idx _ => None end.
-
+    row k holds the coordinates and every value of cell (k / ne, k mod ne)
+    ([value_at]: variables / coordinates stored as (d1, d0) are read at the
+    same cell, i.e. transposed). *)
 Definition table_holds (g : grid) (obs : option table) : bool :=
   match grid_vars g, obs with
   | (_, v0) :: _, Some t =>
